@@ -3,14 +3,22 @@
 spec: HashMap (abstract ordered map), HashImpl (buckets/KeyOrder/NumKeys as in hashutils.go)
 TLC:  refinement HashImpl => HashMap over every history of a key universe with aliases and
       colliding bucket codes (finite state space => histories of every length);
-      the pinned-commit variant of HashDelete must be refuted (self-test, thorough tier)
+      the pinned-commit variant of HashDelete and the unwrap-one-level variant of the key stripping
+      must be refuted (self-tests, thorough tier)
 bind: every script-level result of exhaustive + random histories on a real hash is validated
-      by TLC against HashMap!Apply (HashTrace)
+      by TLC against HashMap!Apply (HashTrace); open findings are named deviations of HashTrace
+      (VERIF_DEVS), so that exactly those cases are explained
 """
 import os
 import vlib, flow
 
 PROP = "C14"
+
+
+def _devs():
+    if os.environ.get("VERIF_DEVS") is not None:
+        return os.environ["VERIF_DEVS"]  # development aid
+    return ",".join(k["id"] for k in vlib.known_findings(PROP))
 
 
 def run():
@@ -20,10 +28,11 @@ def run():
     runs = [dict(module="MCHash.tla", cfg="MCHash.cfg" if thorough else "MCHashQuick.cfg")]
     if thorough:
         runs.append(dict(module="MCHash.tla", cfg="MCHashPinned.cfg", expect="violation"))
+        runs.append(dict(module="MCHash.tla", cfg="MCHashStripOnce.cfg", expect="violation"))
     flow.mc_runs(out, runs)
     trace = os.path.join(vlib.scratch(), "hash.ndjson")
     vlib.run_zv(zv, "hash", [], trace)
-    cases, v = flow.validate(out, "hash", "HashTrace.tla", "HashTrace.cfg", trace, zv)
+    cases, v = flow.validate(out, "hash", "HashTrace.tla", "HashTrace.cfg", trace, zv, env={"VERIF_DEVS": _devs()})
     events = sum(len(c["evs"]) for c in cases.values())
     muts = set()
     for c in cases.values():
@@ -36,8 +45,10 @@ def run():
         "samples": [[e["text"] + " => " + str(e["res"]) for e in c["evs"][:12]] for c in list(cases.values())[:2]],
         "exhaustive": True,
         "rule": "every sequence of hset/hdel of length <= L over 9 keys (every key kind, chr/int and [x]/x aliases, "
-                "two colliding bucket codes) with the full observation battery after every step; every length-L2 sequence "
-                "over a 5-key alias core; seeded random histories of length 30 over 12 keys",
+                "two colliding bucket codes) with the full observation battery after every step (every view; the range "
+                "macro and both infix range loops over the hash under the names h, n, i); every length-L2 sequence "
+                "over a 5-key alias core; every sequence of length <= L3 over the edge spellings 7/[7]/[[7]], 'c'/[['c']], "
+                "a:/a.b/x.y with values of two types; seeded random histories of length 30 over 16 keys",
     }
     return flow.finish(out, "model_checking", cov, [
         "key universe and value palette as listed in harness/cmd/zv/fam_hash.go",
@@ -56,7 +67,7 @@ def replay(path):
         f.write(json.dumps(rec["case"]) + "\n")
     fresh = os.path.join(vlib.scratch(), "fresh.ndjson")
     vlib.run_zv1(zv, "hash", ["-replay", rp], out=fresh)
-    v, _ = vlib.validate_trace("HashTrace.tla", "HashTrace.cfg", fresh)
+    v, _ = vlib.validate_trace("HashTrace.tla", "HashTrace.cfg", fresh, env={"VERIF_DEVS": _devs()})
     bad = [i for i in v if v[i][0] == "bad"]
     for i in bad:
         print("VIOLATION property=%s replay=%s" % (PROP, path))
